@@ -128,7 +128,7 @@ def run(ctx):
         if ntab != 2 ** nk + 1:
             raise vlib.ToolError("MC_ByteSetGen TABLE has %d lines, expected %d" % (ntab, 2 ** nk + 1))
         nbeh_total += nbeh
-        s2s.append(ctx.harness(BIN, "replay", "b2-%d" % gi, extra={"in": beh, "table": tab, "gen": gi, "sample": 4000 if ctx.thorough else 500}))
+        s2s.append(ctx.harness(BIN, "replay", "b2-%d" % gi, extra={"in": beh, "table": tab, "gen": gi, "sample": 4000 if ctx.thorough else 1000}))
     # --- B1: seeded random histories over a generated universe of ~40 byte-string keys
     s1 = ctx.harness(BIN, "drive", "b1")
     b1files = sorted(glob.glob(os.path.join(s1["_out"], "*.ndjson")))
